@@ -142,11 +142,16 @@ class SigGen:
         a = g.agg(ch.int(0, 1), tag=tag)
 
         def drop_padding_fields(agg):
-            # (D73, eightbytes that consist of padding only, was repaired: unnamed bit-fields of any width stay in)
+            # (D73, eightbytes that consist of padding only, was repaired.)  Unnamed bit-fields of non-zero width are left out: gcc
+            # classifies them INTEGER, clang ignores them as the psABI says (chibicc follows the psABI), and the (clang, gcc) link-up
+            # used as consensus does not always show the disagreement (a value may sit in %xmm0 and %eax at once at -O0)
             keep = []
             for f in agg.fields:
                 if f.bf is None and isinstance(f.ty, tgen.Agg):
                     drop_padding_fields(f.ty)
+                if f.bf is not None and not f.name and f.bf > 0:
+                    self.excl['ref-disagree:unnamed-bit-field'] = self.excl.get('ref-disagree:unnamed-bit-field', 0) + 1
+                    continue
                 keep.append(f)
             if not any(f.name for f in keep):
                 keep.append(tgen.Field('mz', tgen.Scalar('int', 4, 'int', igen.INT)))
